@@ -528,6 +528,9 @@ func (s *server) script(sess atpcs.Session, w *faultWriter) {
 				b := atpcs.MsgBytes(oo, sess.Ver, sess.BadSchema)
 				s.write(w, "done", o.R, b)
 			}
+		case "sleep":
+			// a step that takes its time (interruptible by the end of the session)
+			s.waitUntil(func() bool { return false }, time.Now().Add(time.Duration(o.N)*time.Millisecond))
 		case "expectmark":
 			n := o.N
 			s.waitFor(func() bool { return s.mark >= n })
@@ -725,6 +728,7 @@ func runJob(job atpcs.Job) (res atpcs.JobResult) {
 	var closeErr error
 	var closePanic any
 	closeCalled := false
+	closeLeft := "" // goroutines the client started that still run 100 ms after Close returned nil
 	startClose := func() {
 		closeCalled = true
 		closeDone = make(chan struct{})
@@ -738,6 +742,18 @@ func runJob(job atpcs.Job) (res atpcs.JobResult) {
 			}()
 			rec.add(atpcs.Ev{K: "call", Fn: "Close"})
 			closeErr = cli.Close()
+			if closeErr == nil {
+				// "after Close no goroutine started by the client remains": look at the moment Close
+				// returns (a goroutine that has just released the wait group may take a moment to end)
+				left := ""
+				for i := 0; i < 100; i++ {
+					if left = clientSpawned(); left == "" {
+						break
+					}
+					time.Sleep(time.Millisecond)
+				}
+				closeLeft = left
+			}
 			e := atpcs.Ev{K: "ret", Fn: "Close"}
 			if closeErr != nil {
 				e.Err, e.ErrS = true, closeErr.Error()
@@ -754,6 +770,10 @@ func runJob(job atpcs.Job) (res atpcs.JobResult) {
 			if closePanic != nil {
 				problem(prop, fmt.Sprint("Close panicked: ", closePanic), "")
 				setVerdict("panic")
+			}
+			if closeLeft != "" {
+				problem(prop, "Close returned nil while goroutines started by the client were still running: "+closeLeft, "")
+				setVerdict("leak")
 			}
 		case <-time.After(timeout + 6*time.Second):
 			problem(prop, "Close did not return", "")
@@ -1303,6 +1323,36 @@ func strictRun(s atpcs.Session, run string) bool {
 		}
 	}
 	return d >= 1
+}
+
+// clientSpawned lists the goroutines that were started by the client (read loop, signal writers,
+// the helper of waitWithTimeout) and are still alive.
+func clientSpawned() string {
+	buf := make([]byte, 1<<20)
+	n := runtime.Stack(buf, true)
+	var out []string
+	for _, g := range bytes.Split(buf[:n], []byte("\n\n")) {
+		i := bytes.Index(g, []byte("created by go.flow.arcalot.io/pluginsdk/atp."))
+		if i < 0 {
+			continue
+		}
+		l := string(g[i:])
+		if j := strings.IndexByte(l, '\n'); j > 0 {
+			l = l[:j]
+		}
+		first := ""
+		for _, ln := range strings.Split(string(g), "\n") {
+			if strings.Contains(ln, "pluginsdk/atp.") {
+				first = strings.TrimSpace(ln)
+				break
+			}
+		}
+		if k := strings.IndexByte(first, '('); k > 0 && strings.HasPrefix(first, "go.flow") {
+			first = first[:strings.LastIndexByte(first, '(')]
+		}
+		out = append(out, first+" ["+l+"]")
+	}
+	return strings.Join(out, "; ")
 }
 
 func clientGoroutines() string {
